@@ -48,6 +48,7 @@ _weights = None  # weights — pixel weights
 _dst = None  # Distributions object
 _bs_prm = None  # [Rmax, order, odd]
 _bs = None  # [P[n]] — projected functions
+_ibs_prm = None  # [height, width, row] — geometry of the image basis
 _ibs = None  # [rbin, wl, wu, cos^n] — arrays for image construction
 _trf = None  # [Af[n]] — forward transform matrices
 _tri_full = None  # [Ai[n]] — inverse-transform matrices without mask and reg
@@ -298,12 +299,15 @@ def _profiles(IM, origin, rmax, order, odd, weights, verbose):
 
 
 def _get_image_bs(height, width, row, verbose):
-    global _ibs
+    global _ibs_prm, _ibs
 
-    if _ibs is not None:
+    # the cached arrays can be reused only for the same output geometry
+    prm = [height, width, row]
+    if _ibs is not None and _ibs_prm == prm:
         if verbose:
             print('(using cached image basis)')
         return _ibs
+    _ibs_prm = prm
 
     # _dst quadrant has the minimal size, so height and width either equal its
     # dimensions, or at least one of them is larger
